@@ -52,6 +52,10 @@ fn mutate(rng: &mut Rng, seeds: &[Vec<char>], maxlen: usize) -> String {
         let s = rng.below(t.len() - maxlen + 1);
         t = t[s..s + maxlen].to_vec();
     }
+    if rng.below(6) == 0 {
+        // the seed itself (directed seeds are meant to be executed as they are, too)
+        return t.into_iter().collect();
+    }
     let rounds = 1 + rng.below(4);
     for _ in 0..rounds {
         let n = t.len();
@@ -295,6 +299,9 @@ pub fn op_fuzz(args: &[&str], payload: &[u8]) -> String {
     let maxlen = (num(3) as usize).max(8);
     let flag = args.get(4).copied().unwrap_or("");
     let seeds = parse_seeds(payload);
+    // a payload whose first seed is the marker is a list of directed inputs: each is executed as it is (index i runs seed
+    // i mod n), in a seeded mode and at a seeded start offset
+    let verbatim = seeds.len() > 1 && seeds[0].iter().collect::<String>() == "\u{0}VERBATIM";
     let mut viol: Vec<Viol> = Vec::new();
     let mut nviol = 0u64;
     let mut kinds: BTreeMap<String, u64> = BTreeMap::new();
@@ -309,7 +316,8 @@ pub fn op_fuzz(args: &[&str], payload: &[u8]) -> String {
     let mut only_off = 0u32;
     for i in start..start + count {
         let mut rng = Rng::new(seed.wrapping_mul(0x100000001B3) ^ i.wrapping_mul(0x9E3779B97F4A7C15));
-        let text = match rng.below(20) {
+        let text = match if verbatim { 100 } else { rng.below(20) } {
+            100 => seeds[1 + (i as usize) % (seeds.len() - 1)].iter().collect(),
             0 | 1 => token_soup(&mut rng, maxlen),
             2 | 3 | 4 => literal_soup(&mut rng),
             5 | 6 => header_soup(&mut rng),
